@@ -1195,6 +1195,10 @@ def jobs_for(tier: str):
                 for sidx in PAIR_SESSIONS:
                     for sh in range(nsh):
                         jobs.append((n * n * 25 // nsh, ('pairs', tier, sidx, idx, sh, nsh)))
+    only = [x for x in os.environ.get('C03_PARTS', '').split(',') if x]
+    if only:
+        # debugging / sensitivity runs: a subset of the parts (run() records it as a cap)
+        jobs = [j for j in jobs if j[1][0] in only]
     jobs.sort(key=lambda j: (-j[0], repr(j[1])))
     return [j for _, j in jobs]
 
@@ -1268,6 +1272,8 @@ def run(ctx: core.Ctx) -> None:
     ctx.coverage_extra['ladders'] = {f'{l["ladder"]}@{l["limit"]}': {'N': l['sizes'], 'outcome': l['outcomes']} for l in sorted(ladders, key=lambda l: (l['ladder'], l['limit']))}
     ctx.sample({'seed': seeds[0]['name'], 'type': seeds[0]['type'], 'body': seeds[0]['body'].hex()[:120], 'single_deviations': len(deviations(seeds[0]['type'], seeds[0]['body']))})
     ctx.sample({'ladder': 'unknown-attr-3', 'N': ladder_sizes('unknown-attr-3', 4096)})
+    if os.environ.get('C03_PARTS'):
+        ctx.cap(f'restricted to parts {os.environ["C03_PARTS"]} by C03_PARTS')
     if ctx.tier == 'quick':
         ctx.cap('pairs of deviations are enumerated in the thorough tier only')
     ctx.cap('"all byte strings up to the negotiated maximum" is not enumerable: exhaustive inside the stated bounds only')
